@@ -146,7 +146,49 @@ def pow (a b : F64) : F64 :=
     if n < 0 then div one p else p
   | _, _ => .nan
 
+/-! ### binary32 ("float32") and binary16 ("float16") inside binary64
+
+Every binary32 / binary16 value is a double, so the narrow formats need no carrier of their own:
+`narrow p qmin emax x` is the value of the format with `p` significand bits, least quantum
+`2^qmin` and largest exponent `emax` that is nearest to the double `x` (ties to even, gradual
+underflow, overflow to ±inf) -- NumPy's cast `float64 → float32 / float16`.  An operation of
+the narrow format is the binary64 operation followed by `narrow`.  For +, −, ×, ÷ that IS the
+correctly rounded narrow operation: rounding first to `p' = 53` and then to `p` digits equals
+rounding once to `p` digits whenever `p' ≥ 2p + 2` (Figueroa, "When is double rounding
+innocuous?", ACM SIGNUM Newsletter 30(3), 1995; formalised by Roux, "Innocuous double rounding of
+basic arithmetic operations", J. Formalized Reasoning 7(1), 2014); 53 ≥ 2·24 + 2 and
+53 ≥ 2·11 + 2.  (NumPy evaluates binary16 operations in binary32 and rounds: 24 ≥ 2·11 + 2, so
+they are correctly rounded, too.)  This fact is CITED, not proved here; the correspondence check
+compares every float32 / float16 result of the real code with this model bit for bit. -/
+
+def narrow (p : Nat) (qmin emax : Int) : F64 → F64
+  | .nan => .nan
+  | .fin k =>
+    if isInf k || isZero k then .fin k else
+    let (m, e) := decode k
+    let n := m.natAbs
+    let bits : Int := (Nat.log2 n + 1 : Nat)
+    let q : Int := max (e + bits - p) qmin
+    let mant : Nat := if q ≤ e then n * 2 ^ (e - q).toNat else rneShift n (q - e).toNat
+    if mant = 0 then .fin 0
+    else if ((Nat.log2 mant + 1 : Nat) : Int) + q > emax + 1 then .fin (signOf k * infKey)
+    else ofDyadic (signOf k * (mant : Int)) q
+
+def to32 : F64 → F64 := narrow 24 (-149) 127
+def to16 : F64 → F64 := narrow 11 (-24) 15
+
 end F64
+
+/-- the arithmetic of a narrow binary format: the binary64 operation, then `narrow` -/
+def Alg.narrowed (r : F64 → F64) : Alg F64 :=
+  { add := fun a b => r (F64.add a b), sub := fun a b => r (F64.sub a b), mul := fun a b => r (F64.mul a b),
+    div := fun a b => r (F64.div a b), pow := fun a b => r (F64.pow a b),
+    min := F64.fmin, max := F64.fmax, zero := .fin 0, one := F64.one, ofNat := fun n => r (F64.ofInt n) }
+
+/-- binary32 arithmetic -/
+def Alg.f32 : Alg F64 := Alg.narrowed F64.to32
+/-- binary16 arithmetic (element by element; NumPy's float16 REDUCTIONS accumulate in binary32 and are not modelled) -/
+def Alg.f16 : Alg F64 := Alg.narrowed F64.to16
 
 /-- binary64 arithmetic: every operation rounds -/
 def Alg.f64 : Alg F64 :=
